@@ -45,8 +45,8 @@ PROPS['C15'] = dict(
 )
 PROPS['C18'] = dict(
   level='proof',
-  verus=[dict(unit='bytecode', min_functions=10), dict(unit='peephole', min_functions=8), dict(unit='lines', min_functions=6), dict(unit='pipeline', min_functions=1), dict(unit='unwind', min_functions=2), dict(unit='scannerd', min_functions=6), dict(unit='parserd', min_functions=1)],
-  not_decided=['the text of the traceback (frame_line / error_backtrace strings), exit-status mapping in Vm::run, exit(n)'],
+  verus=[dict(unit='bytecode', min_functions=10), dict(unit='peephole', min_functions=8), dict(unit='lines', min_functions=6), dict(unit='pipeline', min_functions=1), dict(unit='unwind', min_functions=2), dict(unit='scannerd', min_functions=6), dict(unit='parserd', min_functions=1), dict(unit='exitpath', min_functions=2)],
+  not_decided=['the text of each traceback line (which frame, ip and code offset it is computed from IS decided), the Exit native narrowing its argument to u16 (exit(70000), exit(-1)), process::exit in main.rs'],
 )
 PROPS['C04'] = dict(
   level='proof',
@@ -74,13 +74,13 @@ PROPS['C02'] = dict(
 )
 PROPS['C03'] = dict(
   level='proof',
-  verus=[dict(unit='ops', min_functions=10), dict(unit='peephole', min_functions=2), dict(unit='klass', min_functions=4), dict(unit='calls', min_functions=1), dict(unit='ncall', min_functions=1), dict(unit='propcomp', min_functions=9)],
-  not_decided=['compile-time field numbering vs run-time Field order (Compiler::class/emit_fields; which accesses get a fixed slot IS decided: propcomp unit), meta classes (meta_from_super), is_subclass (pointer recursion)',
+  verus=[dict(unit='ops', min_functions=10), dict(unit='peephole', min_functions=2), dict(unit='klass', min_functions=4), dict(unit='calls', min_functions=1), dict(unit='ncall', min_functions=1), dict(unit='propcomp', min_functions=9), dict(unit='fieldsc', min_functions=1)],
+  not_decided=['compile-time field numbering vs run-time Field order: emit_fields emits the Field instructions in the order find_known_field numbers them (fieldsc unit) and op_field / add_field give slots in arrival order (ops, klass); that the initialiser is compiled before emit_fields and the methods after (Compiler::class) is read, not proved, meta classes (meta_from_super), is_subclass (pointer recursion)',
                'A-heap: in the ops unit the class tables are abstract functions; that a field keeps its slot and a subclass extends its parent numbering is proved in the klass unit; A-slot'],
 )
 PROPS['C13'] = dict(
   level='proof',
-  verus=[dict(unit='ops', min_functions=12), dict(unit='klass', min_functions=4), dict(unit='cachetrace', min_functions=1), dict(unit='propcomp', min_functions=6)],
+  verus=[dict(unit='ops', min_functions=12), dict(unit='klass', min_functions=4), dict(unit='cachetrace', min_functions=1), dict(unit='propcomp', min_functions=6), dict(unit='fieldsc', min_functions=1)],
   not_decided=['A-slot: every slot id in live code of a module is inside that module\'s cache and belongs to one site with one name (established by Vm::compile; false for REPL entries, see C19)',
                'A-classid: a class address identifies one class for as long as it sits in a cache: holds since fix ae3a806 made the caches roots (D21; the root-set obligation is in the gctrace unit, that InlineCache::trace reaches every entry in the cachetrace unit)'],
 )
